@@ -1,5 +1,343 @@
-import GraphrsModel.Obs
+/-
+  C02 — every read API describes one and the same graph.
+
+  Under the coupling invariant `Store.wf` (which holds on every reachable state: C01_run_refines)
+  every query of the model - each following the lookup path of the Rust function of the same
+  name, through whichever of the twelve indexes that function uses - returns the answer computed
+  from the abstract graph `s.abs` (node list + edge list) alone.  This file also re-establishes
+  the adjacency-set clause `adjOk` of the invariant after every mutation.
+-/
+import GraphrsModel.Spec.Inv
+import GraphrsModel.Lemmas.C02Nbr
+import GraphrsModel.Lemmas.C02Lists
+import GraphrsModel.Lemmas.C02Step3
 namespace Graphrs
-/-- placeholder while the framework is brought up: replaced by the property theorems -/
-theorem C02_run_nil (sp : Specs) : (Abs.run sp []).2 = [] := rfl
+open C02
+
+-- several statements carry hypotheses their proofs do not need (see the notes at the theorems)
+set_option linter.unusedVariables false
+
+private theorem wf_parts (s : Store) (h : s.wf = true) :
+    s.nodesOk = true ∧ s.edgesOk = true ∧ s.adjOk = true ∧ s.vecOk = true := by
+  simp only [Store.wf, Bool.and_eq_true] at h
+  exact ⟨h.1.1.1, h.1.1.2, h.1.2, h.2⟩
+
+/-! ### the adjacency-set clause of the invariant is preserved -/
+
+/-- (`h1`, `h2` are not needed: `add_node` touches no edge store and no name-keyed set) -/
+theorem C02_addNode_adjOk (s : Store) (n : Node) (h : s.wf = true)
+    (h1 : (s.addNode n).nodesOk = true) (h2 : (s.addNode n).edgesOk = true) :
+    (s.addNode n).adjOk = true := by
+  obtain ⟨hn, he, ha, _⟩ := wf_parts s h
+  exact (adjOk_iff _).2 (addNode_J s n (J_of_wf s hn he ha)).adj
+
+theorem C02_addEdge_adjOk (s : Store) (e : Edge) (h : s.wf = true)
+    (h1 : (s.addEdge e).1.nodesOk = true) (h2 : (s.addEdge e).1.edgesOk = true) :
+    (s.addEdge e).1.adjOk = true := by
+  obtain ⟨hn, he, ha, _⟩ := wf_parts s h
+  exact addEdge_adjOk s e hn he ha h1 h2
+
+/-! ### node lookups -/
+
+theorem C02_getNode (s : Store) (h : s.wf = true) (x : Nat) : s.getNode x = s.abs.getNode x := by
+  exact getNode_eq (nodesP_of s (wf_parts s h).1) x
+
+theorem C02_hasNode (s : Store) (h : s.wf = true) (x : Nat) : s.hasNode x = s.abs.hasNode x := by
+  unfold Store.hasNode Abs.hasNode
+  rw [C02_getNode s h, Abs.getNode, Bool.eq_iff_iff, List.find?_isSome, List.any_eq_true]
+
+theorem C02_getNodeIndex (s : Store) (h : s.wf = true) (x : Nat) :
+    s.getNodeIndex x = (match s.abs.indexOf x with | some i => .ok i | none => .err .NodeNotFound) := by
+  have hn := nodesP_of s (wf_parts s h).1
+  unfold Store.getNodeIndex Abs.indexOf
+  cases hl : alookup s.nodesMap x with
+  | some i =>
+    have hi := (hn.link x i).1 hl
+    have := findIdx_of_names s.nodesVec x i hn.namesNodup hi
+    have hlt := hn.idx_lt hl
+    simp [Store.abs, this, hlt]
+  | none =>
+    have : ¬ (s.abs.nodes.findIdx (·.name == x) < s.abs.nodes.length) := by
+      rw [List.findIdx_lt_length]
+      rintro ⟨nd, hnd, hx⟩
+      have : x ∈ s.names := by
+        simp only [beq_iff_eq] at hx
+        exact hx ▸ List.mem_map_of_mem hnd
+      obtain ⟨i, hi⟩ := (hn.mem_names x).1 this
+      rw [hl] at hi; cases hi
+    simp [this]
+
+theorem C02_getNodeByIndex (s : Store) (h : s.wf = true) (i : Nat) : s.getNodeByIndex i = s.abs.nodes[i]? := by
+  exact (nodesP_of s (wf_parts s h).1).rev i
+
+/-! ### pairwise queries -/
+
+/-- every stored edge is found between its own endpoints, and only there
+    (holds for any store: `between` filters `allEdges` by a test every edge passes at its own endpoints) -/
+theorem C02_allEdges_between (s : Store) (h : s.wf = true) (e : Edge) :
+    e ∈ s.allEdges ↔ e ∈ s.abs.between s.specs.directed e.u e.v := by
+  simp [Abs.between, Store.abs, Abs.sameKey]
+
+/-- on a single-edge graph `get_edge` returns the stored edge between the two nodes -/
+private theorem getNodeIndex_ok (s : Store) (u ui : Nat) (h : alookup s.nodesMap u = some ui) :
+    s.getNodeIndex u = .ok ui := by simp [Store.getNodeIndex, h]
+
+theorem C02_getEdge (s : Store) (h : s.wf = true) (hm : s.specs.multi = false) (u v : Nat)
+    (hu : s.hasNode u = true) (hv : s.hasNode v = true) :
+    s.getEdge u v = (match s.abs.between s.specs.directed u v with
+                     | [] => .err .EdgeNotFound
+                     | e :: _ => .ok e) := by
+  have hn := nodesP_of s (wf_parts s h).1
+  have he := edgesP_of s (wf_parts s h).2.1
+  obtain ⟨ui, hui⟩ := (hasNode_iff hn u).1 hu
+  obtain ⟨vi, hvi⟩ := (hasNode_iff hn v).1 hv
+  have e1 : s.getEdge u v = s.getEdgeByIndexes ui vi := by
+    simp [Store.getEdge, hm, acontains, hui, hvi, getNodeIndex_ok s u ui hui, getNodeIndex_ok s v vi hvi,
+      Outcome.unwrap, bind, Outcome.bind]
+  rw [e1]
+  unfold Store.getEdgeByIndexes
+  rcases edgesByIdx_eq hn he hui hvi with ⟨h1, h2⟩ | ⟨e, l, h1, h2⟩ <;> rw [h1, h2]
+
+/-- on a multi-edge graph `get_edges` returns all parallel edges, in insertion order -/
+theorem C02_getEdges (s : Store) (h : s.wf = true) (hm : s.specs.multi = true) (u v : Nat)
+    (hu : s.hasNode u = true) (hv : s.hasNode v = true) :
+    s.getEdges u v = (match s.abs.between s.specs.directed u v with
+                      | [] => .err .EdgeNotFound
+                      | l => .ok l) := by
+  have hn := nodesP_of s (wf_parts s h).1
+  have he := edgesP_of s (wf_parts s h).2.1
+  obtain ⟨ui, hui⟩ := (hasNode_iff hn u).1 hu
+  obtain ⟨vi, hvi⟩ := (hasNode_iff hn v).1 hv
+  have e1 : s.getEdges u v = (match s.edgesByIdx ui vi with
+      | none => .err .EdgeNotFound
+      | some l => .ok l) := by
+    simp [Store.getEdges, hm, acontains, hui, hvi, getNodeIndex_ok s u ui hui, getNodeIndex_ok s v vi hvi,
+      Outcome.unwrap, bind, Outcome.bind]
+    rfl
+  rw [e1]
+  rcases edgesByIdx_eq hn he hui hvi with ⟨h1, h2⟩ | ⟨e, l, h1, h2⟩ <;> rw [h1, h2]
+
+private theorem edgesByIdx_symm (s : Store) (hd : s.specs.directed = false) (i j : Nat) :
+    s.edgesByIdx i j = s.edgesByIdx j i := by
+  have h1 : ∀ i j, s.edgesByIdx i j = alookup s.edgesMap (idxKey s.specs.directed i j) := fun _ _ => rfl
+  rw [h1, h1, hd, idxKey_eq_nameKey, nameKey_symm, ← idxKey_eq_nameKey]
+
+/-- on an undirected graph the pairwise queries are symmetric, whatever the name / insertion orders
+    (holds for any store: the position key is canonicalised before the lookup) -/
+theorem C02_getEdge_symmetric (s : Store) (h : s.wf = true) (hd : s.specs.directed = false) (u v : Nat) :
+    s.getEdge u v = s.getEdge v u ∧ s.getEdges u v = s.getEdges v u := by
+  unfold Store.getEdge Store.getEdges Store.getEdgeByIndexes Store.getNodeIndex
+  cases hu : alookup s.nodesMap u <;> cases hv : alookup s.nodesMap v <;>
+    cases hm : s.specs.multi <;>
+    simp [acontains, hu, hv, Outcome.unwrap, bind, Outcome.bind, edgesByIdx_symm s hd]
+
+/-- the error channel of the pairwise queries: the wrong kind of graph, then absent nodes -/
+theorem C02_pair_errors (s : Store) (u v : Nat) :
+    (s.specs.multi = true → s.getEdge u v = .err .WrongMethod) ∧
+    (s.specs.multi = false → s.getEdges u v = .err .WrongMethod) ∧
+    (s.specs.multi = false → (acontains s.nodesMap u = false ∨ acontains s.nodesMap v = false) → s.getEdge u v = .err .NodeNotFound) ∧
+    (s.specs.multi = true → (acontains s.nodesMap u = false ∨ acontains s.nodesMap v = false) → s.getEdges u v = .err .NodeNotFound) := by
+  refine ⟨?_, ?_, ?_, ?_⟩
+  · intro hm; simp [Store.getEdge, hm]
+  · intro hm; simp [Store.getEdges, hm]
+  · intro hm hc
+    rcases hc with hc | hc <;> simp [Store.getEdge, hm, hc]
+  · intro hm hc
+    rcases hc with hc | hc <;> simp [Store.getEdges, hm, hc]
+
+/-! ### per-node edge lists -/
+
+private theorem getNode_isNone (s : Store) (x : Nat) (hx : s.hasNode x = true) : (s.getNode x).isNone = false := by
+  unfold Store.hasNode at hx
+  cases h : s.getNode x <;> simp_all
+
+theorem C02_outEdges (s : Store) (h : s.wf = true) (hd : s.specs.directed = true) (x : Nat) (hx : s.hasNode x = true) :
+    ∃ l, s.getOutEdgesForNode x = .ok l ∧ l.Perm (s.abs.outEdges x) := by
+  have he := edgesP_of s (wf_parts s h).2.1
+  have ha := (adjOk_iff s).1 (wf_parts s h).2.2.1
+  unfold Store.getOutEdgesForNode
+  simp only [hd, getNode_isNone s x hx, Bool.not_true, Bool.false_eq_true, if_false]
+  exact outList s _ he ha hd x
+
+theorem C02_inEdges (s : Store) (h : s.wf = true) (hd : s.specs.directed = true) (x : Nat) (hx : s.hasNode x = true) :
+    ∃ l, s.getInEdgesForNode x = .ok l ∧ l.Perm (s.abs.inEdges x) := by
+  have he := edgesP_of s (wf_parts s h).2.1
+  have ha := (adjOk_iff s).1 (wf_parts s h).2.2.1
+  unfold Store.getInEdgesForNode
+  simp only [hd, getNode_isNone s x hx, Bool.not_true, Bool.false_eq_true, if_false]
+  exact inList s _ he ha hd x
+
+/-- all = in ⊎ out on a directed graph (a self-loop is listed in both), the touching edges on an undirected one -/
+theorem C02_edgesForNode (s : Store) (h : s.wf = true) (x : Nat) (hx : s.hasNode x = true) :
+    ∃ l, s.getEdgesForNode x = .ok l ∧ l.Perm (s.abs.edgesForNode s.specs.directed x) := by
+  have he := edgesP_of s (wf_parts s h).2.1
+  have ha := (adjOk_iff s).1 (wf_parts s h).2.2.1
+  unfold Store.getEdgesForNode Abs.edgesForNode
+  simp only [getNode_isNone s x hx, Bool.false_eq_true, if_false]
+  cases hd : s.specs.directed
+  · obtain ⟨l, hl, hp⟩ := touchList s "get_edges_for_node: edges.get(succ).unwrap()" he ha hd x
+    have hpe := pred_empty s he ha hd x
+    unfold Store.setOf at hpe hl
+    refine ⟨l, ?_, hp⟩
+    have hk : (fun q => if (!false && decide (x > q)) = true then (q, x) else (x, q)) = fun q => nameKey false x q := by
+      funext q; rfl
+    have hnil : ∀ site, s.flatEdges site [] = .ok [] := fun _ => rfl
+    simp only [hpe, List.map_nil, hnil, bind, Outcome.bind, hk, hl, List.nil_append]
+  · obtain ⟨l1, hl1, hp1⟩ := inList s "get_edges_for_node: edges.get(pred).unwrap()" he ha hd x
+    obtain ⟨l2, hl2, hp2⟩ := outList s "get_edges_for_node: edges.get(succ).unwrap()" he ha hd x
+    unfold Store.setOf at hl1 hl2
+    refine ⟨l1 ++ l2, ?_, List.Perm.append hp1 hp2⟩
+    simp only [bind, Outcome.bind, hl1, Bool.not_true, Bool.false_and, Bool.false_eq_true, if_false, hl2]
+
+theorem C02_node_errors (s : Store) (x : Nat) :
+    (s.specs.directed = false → s.getInEdgesForNode x = .err .WrongMethod ∧ s.getOutEdgesForNode x = .err .WrongMethod ∧
+        s.getSuccessorNodes x = .err .WrongMethod ∧ s.getPredecessorNodes x = .err .WrongMethod) ∧
+    ((s.getNode x).isNone = true → s.getEdgesForNode x = .err .NodeNotFound) := by
+  constructor
+  · intro hd
+    simp [Store.getInEdgesForNode, Store.getOutEdgesForNode, Store.getSuccessorNodes,
+      Store.getPredecessorNodes, hd]
+  · intro hx
+    simp [Store.getEdgesForNode, hx]
+
+/-! ### successor / predecessor / neighbour queries -/
+
+/-- names reached through a position-keyed set = names in the name-keyed set -/
+private theorem names_of_idx_set {s : Store} (ms : List (Nat × List Nat)) (ns : List (Nat × List Nat))
+    (x i : Nat)
+    (hidx : ∀ y j, s.names[j]? = some y → (j ∈ Store.setOf ms i ↔ y ∈ Store.setOf ns x))
+    (hnames : ∀ y ∈ Store.setOf ns x, y ∈ s.names) (y : Nat) :
+    y ∈ (Store.setOf ms i).filterMap (s.names[·]?) ↔ y ∈ Store.setOf ns x := by
+  rw [List.mem_filterMap]
+  constructor
+  · rintro ⟨j, hj, hy⟩
+    exact (hidx y j hy).1 hj
+  · intro hy
+    obtain ⟨j, hj⟩ := List.mem_iff_getElem?.1 (hnames y hy)
+    exact ⟨j, (hidx y j hj).2 hy, hj⟩
+
+theorem C02_successorNodes (s : Store) (h : s.wf = true) (hd : s.specs.directed = true) (x : Nat) (hx : s.hasNode x = true) :
+    ∃ l, s.getSuccessorNodes x = .ok l ∧ (∀ y, y ∈ l.map (·.name) ↔ y ∈ s.abs.succ true x) ∧ (l.map (·.name)).Nodup := by
+  have hn := nodesP_of s (wf_parts s h).1
+  have he := edgesP_of s (wf_parts s h).2.1
+  have ha := (adjOk_iff s).1 (wf_parts s h).2.2.1
+  obtain ⟨i, hi⟩ := (hasNode_iff hn x).1 hx
+  have hxi := (hn.link x i).1 hi
+  have hlt : ∀ j ∈ Store.setOf s.succMap i, j < s.nodesVec.length := fun j hj => (ha.succMap_lt hj).2
+  refine ⟨(Store.setOf s.succMap i).filterMap (s.nodesVec[·]?), ?_, ?_, ?_⟩
+  · unfold Store.getSuccessorNodes
+    simp only [hd, Bool.not_true, Bool.false_eq_true, if_false]
+    exact getAdjNodes_ok s hn s.succMap x i hi hlt
+  · intro y
+    rw [names_filterMap, ← hd, mem_abs_succ, ← ha.mem_succ he]
+    apply names_of_idx_set s.succMap s.succ x i (fun y j hj => (ha.idx x i y j hxi hj).1)
+    intro y hy
+    obtain ⟨l, hl, hyl, _⟩ := setOf_mem _ _ _ hy
+    exact (ha.succOk _ hl).2.2 y hyl
+  · rw [names_filterMap]
+    exact nodup_names_filterMap hn _ (setOf_nodup _ _ (fun kv hkv => (ha.succMapOk kv hkv).1))
+
+theorem C02_predecessorNodes (s : Store) (h : s.wf = true) (hd : s.specs.directed = true) (x : Nat) (hx : s.hasNode x = true) :
+    ∃ l, s.getPredecessorNodes x = .ok l ∧ (∀ y, y ∈ l.map (·.name) ↔ y ∈ s.abs.pred true x) ∧ (l.map (·.name)).Nodup := by
+  have hn := nodesP_of s (wf_parts s h).1
+  have he := edgesP_of s (wf_parts s h).2.1
+  have ha := (adjOk_iff s).1 (wf_parts s h).2.2.1
+  obtain ⟨i, hi⟩ := (hasNode_iff hn x).1 hx
+  have hxi := (hn.link x i).1 hi
+  have hlt : ∀ j ∈ Store.setOf s.predMap i, j < s.nodesVec.length := fun j hj => (ha.predMap_lt hj).2
+  refine ⟨(Store.setOf s.predMap i).filterMap (s.nodesVec[·]?), ?_, ?_, ?_⟩
+  · unfold Store.getPredecessorNodes
+    simp only [hd, Bool.not_true, Bool.false_eq_true, if_false]
+    exact getAdjNodes_ok s hn s.predMap x i hi hlt
+  · intro y
+    rw [names_filterMap, ← hd, mem_abs_pred, ← ha.mem_pred he]
+    apply names_of_idx_set s.predMap s.pred x i (fun y j hj => (ha.idx x i y j hxi hj).2)
+    intro y hy
+    obtain ⟨l, hl, hyl, _⟩ := setOf_mem _ _ _ hy
+    exact (ha.predOk _ hl).2.2 y hyl
+  · rw [names_filterMap]
+    exact nodup_names_filterMap hn _ (setOf_nodup _ _ (fun kv hkv => (ha.predMapOk kv hkv).1))
+
+theorem C02_neighborNodes (s : Store) (h : s.wf = true) (x : Nat) (hx : s.hasNode x = true) :
+    ∃ l, s.getNeighborNodes x = .ok l ∧ (∀ y, y ∈ l.map (·.name) ↔ y ∈ s.abs.nbrs s.specs.directed x) ∧ (l.map (·.name)).Nodup := by
+  have hn := nodesP_of s (wf_parts s h).1
+  have he := edgesP_of s (wf_parts s h).2.1
+  have ha := (adjOk_iff s).1 (wf_parts s h).2.2.1
+  obtain ⟨hvs, hvp⟩ := vec_rows s (wf_parts s h).2.2.2
+  obtain ⟨i, hi⟩ := (hasNode_iff hn x).1 hx
+  have hxi := (hn.link x i).1 hi
+  have hilt := hn.idx_lt hi
+  have hpl : i < s.predVec.length := by rw [hn.predVecLen]; exact hilt
+  have hql : i < s.succVec.length := by rw [hn.succVecLen]; exact hilt
+  have hp : s.predVec[i]? = some s.predVec[i] := by simp [hpl]
+  have hq : s.succVec[i]? = some s.succVec[i] := by simp [hql]
+  have hmem : ∀ j, j ∈ Store.dedupConsecutive (sortNat ((s.predVec[i] ++ s.succVec[i]).map (·.1))) ↔
+      (j ∈ Store.setOf s.predMap i ∨ j ∈ Store.setOf s.succMap i) := by
+    intro j
+    rw [mem_dedupConsecutive, mem_sortNat, List.map_append, List.mem_append, hvp i _ hp, hvs i _ hq]
+    constructor
+    · rintro (⟨_, a⟩ | ⟨_, a⟩)
+      · exact .inl a
+      · exact .inr a
+    · rintro (a | a)
+      · exact .inl ⟨(ha.predMap_lt a).2, a⟩
+      · exact .inr ⟨(ha.succMap_lt a).2, a⟩
+  have hlt : ∀ j ∈ Store.dedupConsecutive (sortNat ((s.predVec[i] ++ s.succVec[i]).map (·.1))), j < s.nodesVec.length := by
+    intro j hj
+    rcases (hmem j).1 hj with a | a
+    · exact (ha.predMap_lt a).2
+    · exact (ha.succMap_lt a).2
+  refine ⟨(Store.dedupConsecutive (sortNat ((s.predVec[i] ++ s.succVec[i]).map (·.1)))).filterMap (s.nodesVec[·]?), ?_, ?_, ?_⟩
+  · unfold Store.getNeighborNodes
+    simp only [acontains, hi, Option.isSome_some, Bool.not_true, Bool.false_eq_true, if_false,
+      Store.getNodeIndex, Outcome.unwrap, bind, Outcome.bind, hp, hq]
+    exact nodesByIndexes_ok s _ hn _ hlt
+  · intro y
+    rw [names_filterMap, List.mem_filterMap]
+    unfold Abs.nbrs
+    rw [mem_dedup, List.mem_append, mem_abs_succ, mem_abs_pred, ← ha.mem_succ he, ← ha.mem_pred he]
+    constructor
+    · rintro ⟨j, hj, hy⟩
+      rcases (hmem j).1 hj with a | a
+      · exact .inr ((ha.idx x i y j hxi hy).2.1 a)
+      · exact .inl ((ha.idx x i y j hxi hy).1.1 a)
+    · rintro (hy | hy)
+      · obtain ⟨l, hl, hyl, _⟩ := setOf_mem _ _ _ hy
+        obtain ⟨j, hj⟩ := List.mem_iff_getElem?.1 ((ha.succOk _ hl).2.2 y hyl)
+        exact ⟨j, (hmem j).2 (.inr ((ha.idx x i y j hxi hj).1.2 hy)), hj⟩
+      · obtain ⟨l, hl, hyl, _⟩ := setOf_mem _ _ _ hy
+        obtain ⟨j, hj⟩ := List.mem_iff_getElem?.1 ((ha.predOk _ hl).2.2 y hyl)
+        exact ⟨j, (hmem j).2 (.inl ((ha.idx x i y j hxi hj).2.2 hy)), hj⟩
+  · rw [names_filterMap]
+    exact nodup_names_filterMap hn _ (nodup_dedupConsecutive _ (sorted_sortNat _))
+
+/-- the successor / predecessor maps are the neighbour sets of the edge list -/
+theorem C02_maps (s : Store) (h : s.wf = true) (x y : Nat) :
+    (y ∈ (alookup s.succ x).getD [] ↔ y ∈ s.abs.succ s.specs.directed x) ∧
+    (y ∈ (alookup s.pred x).getD [] ↔ y ∈ s.abs.pred s.specs.directed x) := by
+  have he := edgesP_of s (wf_parts s h).2.1
+  have ha := (adjOk_iff s).1 (wf_parts s h).2.2.1
+  rw [mem_abs_succ, mem_abs_pred]
+  exact ⟨ha.mem_succ he x y, ha.mem_pred he x y⟩
+
+/-- decidable equality of query outcomes (only to let the kernel evaluate the example below) -/
+private instance decEqOutcome {α : Type} [DecidableEq α] : DecidableEq (Outcome α)
+  | .ok a, .ok b => if h : a = b then isTrue (h ▸ rfl) else isFalse (fun e => h (Outcome.ok.inj e))
+  | .err a, .err b => if h : a = b then isTrue (h ▸ rfl) else isFalse (fun e => h (Outcome.err.inj e))
+  | .panic a, .panic b => if h : a = b then isTrue (h ▸ rfl) else isFalse (fun e => h (Outcome.panic.inj e))
+  | .ok _, .err _ => isFalse nofun
+  | .ok _, .panic _ => isFalse nofun
+  | .err _, .ok _ => isFalse nofun
+  | .err _, .panic _ => isFalse nofun
+  | .panic _, .ok _ => isFalse nofun
+  | .panic _, .err _ => isFalse nofun
+
+/-- non-vacuity: an undirected multigraph whose names were inserted out of sort order -/
+example :
+    let sp : Specs := ⟨false, true, true, .error, .create, .error⟩
+    let s := (Store.run sp [Op.addEdge ⟨7, 3, some 1, some 1⟩, Op.addEdge ⟨3, 7, some 2, some 2⟩, Op.addEdgeTuple 7 7]).1
+    s.wf = true ∧ s.getEdges 7 3 = s.getEdges 3 7 ∧
+    s.getEdges 3 7 = .ok [⟨3, 7, some 1, some 1⟩, ⟨3, 7, some 2, some 2⟩] := by
+  decide +kernel
+
 end Graphrs
